@@ -264,6 +264,29 @@ def label_case(asm, acc, seed, idx):
             lines[xi], st, tgt, data.hex(), k, i, (tgt - st) if tgt is not None else 0), case, {'lines': [l[:40] for l in lines]})
 
 
+def reverse_batch(asm, acc, lo, hi):
+    """the canonical texts of all legal halfwords in [lo, hi) as ONE program: it assembles to exactly those halfwords, in order
+    (neighbouring halfwords are the same instruction with the same registers and immediates one step apart)"""
+    hs = [h for h in range(lo, hi) if rv.decode16(h)[0] == 'legal']
+    if not hs:
+        return
+    texts = [canon_text(rv.decode16(h)[1]) for h in hs]
+    o = monitors.observe(asm, '\n'.join(texts) + '\n', tap=False)
+    acc['n'] += 1
+    acc['ctr']['reverse_programs'] += 1
+    acc['ntkeys'].add(core.ckey('revbatch', lo, hi))
+    want = b''.join(h.to_bytes(2, 'little') for h in hs)
+    case = {'kind': 'revbatch', 'lo': lo, 'hi': hi}
+    if not o.ok:
+        core.add_viol(acc, 'the %d canonical texts of the legal halfwords %#06x..%#06x, each of which assembles alone, are refused as one program (%s: %s)' % (
+            len(hs), lo, hi - 1, o.exc['type'], o.exc['msg'][:100]), case, {})
+    elif o.out != want:
+        k = next((i for i in range(min(len(o.out), len(want)) // 2) if o.out[2 * i:2 * i + 2] != want[2 * i:2 * i + 2]), None)
+        core.add_viol(acc, 'program of the canonical texts of the legal halfwords %#06x..%#06x: %s' % (
+            lo, hi - 1, ('line %d `%s` assembles to %s, alone it is %#06x' % (k + 1, texts[k], o.out[2 * k:2 * k + 2].hex(), hs[k])) if k is not None
+            else '%d bytes instead of %d' % (len(o.out), len(want))), case, {})
+
+
 def run_shard(sh, deadline):
     asm = core.load_asm()
     acc = core.new_acc()
@@ -295,6 +318,8 @@ def run_shard(sh, deadline):
     else:
         for h in range(sh['lo'], sh['hi']):
             check_reverse(asm, acc, h)
+        for lo in range(sh['lo'], sh['hi'], 256):
+            reverse_batch(asm, acc, lo, min(sh['hi'], lo + 256))
     return acc
 
 
@@ -339,6 +364,8 @@ def replay(case):
     acc = core.new_acc()
     if case['kind'] == 'label':
         label_case(asm, acc, case['seed'], case['idx'])
+    elif case['kind'] == 'revbatch':
+        reverse_batch(asm, acc, case['lo'], case['hi'])
     elif case['kind'] == 'spbase':
         sp_base_cases(asm, acc)
     elif case['kind'] == 'fwd':
